@@ -210,10 +210,11 @@ theorem colAfter_nonneg (pre : List Char) : 0 ≤ colAfter pre := by unfold colA
 theorem tcolAfter_nonneg (pre : List Char) : 0 ≤ tcolAfter pre := by unfold tcolAfter; omega
 
 /-- looking at the next character: the cursor is where it was, `col`/`tcol` up to `PosN` -/
-theorem peek_char (l : Lexer) (pre suf : List Char) (c : Char) (hc : Cur l pre (c :: suf)) (hp : Pos l pre) :
+theorem peek_char (l : Lexer) (pre suf : List Char) (c : Char) (hc : Cur l pre (c :: suf))
+    (hp : PosN l pre (c :: suf)) :
     (peek l).1 = c.toNat ∧ Cur (peek l).2 pre (c :: suf) ∧ PosN (peek l).2 pre (c :: suf) ∧
     Frame l (peek l).2 := by
-  obtain ⟨n1, n2, n3, n4, n5⟩ := next_char l pre suf c hc (hp.posN _)
+  obtain ⟨n1, n2, n3, n4, n5⟩ := next_char l pre suf c hc hp
   obtain ⟨b1, b2, b3⟩ := backup_next l
   have hw : 0 < (next l).2.width := by rw [n4]; exact encChar_length_pos c
   have hle : (next l).2.width ≤ (next l).2.before.length := by
@@ -351,7 +352,7 @@ theorem acceptRun_chars (l : Lexer) (pre bl suf' : List Char) (hbl : ∀ x ∈ b
       · rename_i heq; simp only [List.cons.injEq] at heq; exact absurd heq.1 hcn
       · rename_i heq; simp only [List.cons.injEq] at heq; exact absurd heq.1 hct
       · exact h3
-    obtain ⟨p1, p2, p3, p4⟩ := peek_char l0 (pre ++ bl) r c h2 hp0
+    obtain ⟨p1, p2, p3, p4⟩ := peek_char l0 (pre ++ bl) r c h2 (hp0.posN _)
     have hp1 : Pos (peek l0).2 (pre ++ bl) := by
       unfold PosN at p3
       split at p3
@@ -1315,7 +1316,7 @@ theorem isUnqDelim_char (c : Char) : isUnqDelim c.toNat = isDelim c := by
 /-- `lexUnquoted` reads up to the next delimiter and emits what has been read since `start` -/
 theorem unquotedLoop_chars (pre0 suf' : List Char) (hs : ∀ c r, suf' = c :: r → isDelim c = true) :
     ∀ (w : List Char), (∀ x ∈ w, isDelim x = false) → ∀ (f : Nat) (l : Lexer) (tk : List Char),
-    Cur l (pre0 ++ tk) (w ++ suf') → Pos l (pre0 ++ tk) → l.start = (encodeChars pre0).length →
+    Cur l (pre0 ++ tk) (w ++ suf') → PosN l (pre0 ++ tk) (w ++ suf') → l.start = (encodeChars pre0).length →
     (encodeChars (w ++ suf')).length + 1 ≤ f →
     ∃ l', unquotedLoop f l = setState .ground (emitText .unquoted (encodeChars (tk ++ w)) l') ∧
       Cur l' (pre0 ++ (tk ++ w)) suf' ∧ PosN l' (pre0 ++ (tk ++ w)) suf' ∧ Frame l l' := by
@@ -1324,7 +1325,7 @@ theorem unquotedLoop_chars (pre0 suf' : List Char) (hs : ∀ c r, suf' = c :: r 
   | nil =>
     intro _ f l tk hc hp hst hf
     obtain ⟨f, rfl⟩ : ∃ f', f = f' + 1 := ⟨f - 1, by omega⟩
-    simp only [List.nil_append, List.append_nil] at hc ⊢
+    simp only [List.nil_append, List.append_nil] at hc hp ⊢
     unfold unquotedLoop
     simp only
     cases suf' with
@@ -1333,8 +1334,9 @@ theorem unquotedLoop_chars (pre0 suf' : List Char) (hs : ∀ c r, suf' = c :: r 
       rw [p1, if_pos isUnqDelim_eof]
       refine ⟨(peek l).2, ?_, p2, ?_, p5⟩
       · rw [emit_eq .unquoted (peek l).2 pre0 tk [] p2 (by rw [p5.start]; exact hst)]
-      · show Pos (peek l).2 (pre0 ++ tk)
-        exact ⟨by rw [p3]; exact hp.col, by rw [p4]; exact hp.tcol⟩
+      · have hp' : Pos l (pre0 ++ tk) := hp
+        show Pos (peek l).2 (pre0 ++ tk)
+        exact ⟨by rw [p3]; exact hp'.col, by rw [p4]; exact hp'.tcol⟩
     | cons d r =>
       obtain ⟨p1, p2, p3, p4⟩ := peek_char l _ r d hc hp
       rw [p1, isUnqDelim_char, hs d r rfl]
@@ -1353,7 +1355,7 @@ theorem unquotedLoop_chars (pre0 suf' : List Char) (hs : ∀ c r, suf' = c :: r 
     simp only [Bool.false_eq_true, if_false]
     have hlen := encodeChars_length_cons c (w ++ suf')
     obtain ⟨l', h1, h2, h3, h4⟩ := ih (fun x hx => hw x (by simp [hx])) f (next (peek l).2).2 (tk ++ [c])
-      (by rw [← List.append_assoc]; exact n2) (by rw [← List.append_assoc]; exact n3)
+      (by rw [← List.append_assoc]; exact n2) (by rw [← List.append_assoc]; exact n3.posN _)
       (by rw [n5.start, p4.start]; exact hst)
       (by
         have : (encodeChars (c :: (w ++ suf'))).length + 1 ≤ f + 1 := hf
